@@ -51,3 +51,8 @@ pub fn alloc_wide(n: u32) -> Vec<u8> {
 pub fn discharged_add(input: &[u8; 1]) -> u8 {
     (input[0] & 0x7) + 1
 }
+
+/// C06-P4: lossy text conversion in a decoder.
+pub fn lossy_text(input: &[u8]) -> String {
+    String::from_utf8_lossy(input).into_owned()
+}
